@@ -16,7 +16,7 @@ assert os.path.realpath(mbi.__file__).startswith(os.path.realpath(REPO)), "mbi n
 LETTERS = "abcdefghij"
 
 
-def fs(x):
+def fs(x=()):
     return frozenset(x)
 
 
@@ -63,3 +63,39 @@ def jt_events(jt):
         ev.append({"e": "Send", "i": list(i), "j": list(j)})
     ev.append({"e": "Done"})
     return ev
+
+
+class tracing:
+    """Collect hook events (mbi._verif_trace) emitted while the block runs."""
+
+    def __enter__(self):
+        from mbi import _verif_trace as vt
+        if not vt.ON:
+            from .core import MachineryError
+            raise MachineryError("hooks disabled: PRIVATE_PGM_VERIF=1 must be set before mbi is imported")
+        self.vt = vt
+        self.prev = vt.sink
+        self.events = []
+        vt.sink = self.events
+        return self.events
+
+    def __exit__(self, *a):
+        self.vt.sink = self.prev
+        return False
+
+
+def to_order(values, attrs, order):
+    """Transpose ndarray `values` laid out along `attrs` into the attribute order `order`; flat list."""
+    attrs = list(attrs)
+    perm = [attrs.index(a) for a in order]
+    return np.transpose(np.asarray(values).reshape([-1] if not attrs else np.asarray(values).shape), perm).reshape(-1) if attrs else np.asarray(values).reshape(-1)
+
+
+def near_int(x, rel=1e-7):
+    """(list of ints, exact?) for a float vector expected to hold integers."""
+    x = np.asarray(x, dtype=float)
+    if not np.all(np.isfinite(x)):
+        return [0] * x.size, False
+    r = np.rint(x)
+    ok = bool(np.all(np.abs(x - r) <= rel * np.maximum(1.0, np.abs(r)))) and bool(np.all(np.abs(r) < 2 ** 30))
+    return [int(v) for v in r], ok
